@@ -187,6 +187,20 @@ theorem context_shared_lock_write_refuted :
     fatalPair ("Delete", "write", "RLock", true) ("Get", "read", "RLock", true) = true ∧
     fatalPair ("Delete", "write", "RLock", true) ("Delete", "write", "RLock", true) = true := by decide
 
+/-- The same for the subscriptions of a session (Generated/CtxLock.lean, `sessLock`, hap/session.go): the PUT handler of
+    the session's connection writes the map (`Subscribe` / `Unsubscribe`), the goroutine of whoever changes a value reads
+    it (`IsSubscribedTo`, asked for every connection by `notifyListener`). Every method that touches the map does so
+    between taking and giving back the session's exclusive mutex, so no subscribe request of one controller can meet a
+    notification caused by another one in a fatal overlap. -/
+theorem session_subscriptions_never_accessed_concurrently :
+    Hc.Generated.sessMutexKind = "sync.Mutex" ∧
+    (Hc.Generated.sessLock.all fun a => Hc.Generated.sessLock.all fun b => !fatalPair a b) = true ∧
+    (Hc.Generated.sessLock.any fun a => a.2.1 == "write") = true ∧
+    (Hc.Generated.sessLock.any fun a => a.2.1 == "read") = true := by decide
+
+theorem session_unlocked_read_refuted :
+    fatalPair ("IsSubscribedTo", "read", "none", false) ("Subscribe", "write", "Lock", false) = true := by decide
+
 /-! ## a connection closes while its peer reconnects from the same port (F56) -/
 
 open Hc.CloseRace in
